@@ -95,3 +95,72 @@ Proof. vm_compute. auto. Qed.
 (** the hypotheses bundled in [Libs] are satisfiable *)
 Theorem libs_satisfiable : inhabited Libs.
 Proof. exact (inhabits ListLibs). Qed.
+
+(** ** variadic calls (C04/Variadic.v): the n-ary call is the left fold of the unary step *)
+Lemma new_slots_length (L : Libs) ops : forall st, length (new_slots L st ops) = length ops.
+Proof. induction ops as [|o r IH]; intro st; simpl; [reflexivity|]. rewrite IH. reflexivity. Qed.
+
+Lemma model_obs_length ops : length (model_obs ops) = length ops.
+Proof.
+  unfold model_obs, abs_slots, irun. rewrite map_length, slots_irun_from, app_length, new_slots_length.
+  reflexivity.
+Qed.
+
+(** running a group [chain] after a history [pre] IS folding the unary step over it from the
+    state [pre] leaves: its slots are the successive results of [step], its heap the fold's *)
+Theorem variadic_is_fold (L : Libs) pre chain :
+  slots (irun L (pre ++ chain)) = slots (irun L pre) ++ new_slots L (irun L pre) chain /\
+  heap (irun L (pre ++ chain)) = heap (fold_left (istep L) chain (irun L pre)).
+Proof. rewrite irun_app. split; [apply slots_irun_from|reflexivity]. Qed.
+
+(** after an exception nothing happens: a unary step of a group applied to the slot of an
+    exception returns EBadRef and leaves the heap alone *)
+Lemma target_err (L : Libs) (st : ist L) i cls :
+  nth_error (slots st) i = Some (RErr cls) -> target L st i = TBad L.
+Proof. unfold target. intros ->. reflexivity. Qed.
+
+Theorem variadic_error_stops (L : Libs) (st : ist L) o i cls :
+  chain_op o = Some i -> nth_error (slots st) i = Some (RErr cls) ->
+  step L st o = (RErr EBadRef, heap st).
+Proof.
+  intros HC HE. apply (target_err L) in HE.
+  destruct o; simpl in HC; try discriminate; injection HC as <-; unfold step; rewrite HE; reflexivity.
+Qed.
+
+(** what the call returns: the last result when no step raises, else the first exception *)
+Lemma variadic_result (g : list sres) (x : sres) (cls : N) (r : list sres) :
+  forallb (fun r => negb (is_err r)) g = true ->
+  vresult (g ++ [x]) = x /\ vresult (g ++ RErr cls :: r) = RErr cls.
+Proof. intro H. split; [apply vresult_last|apply vresult_first_error]; exact H. Qed.
+
+(** hence the correspondence's verdict on a history with variadic calls is covered by the
+    refinement theorem: under the two guards the model's visible results are accepted *)
+Theorem variadic_model_meets_spec gs ops :
+  list_sum gs = length ops ->
+  indices_nonneg ListLibs ops = true -> meta_args_nonnil ListLibs ops = true ->
+  spec_ok (CHistV gs ops) (model (CHistV gs ops)) = true.
+Proof.
+  intros HS G1 G2. pose proof (model_meets_spec ops G1 G2) as M.
+  unfold spec_ok, model in *. cbv zeta in *. fold (model_obs ops) in *.
+  rewrite fill_project by (rewrite model_obs_length; exact HS).
+  apply andb_true_iff; split; [apply andb_true_iff; split|exact M]; apply Nat.eqb_eq;
+    [exact HS|symmetry; apply project_length].
+Qed.
+
+(** a history without variadic calls: the grouped form says the same as the plain one *)
+Lemma variadic_conservative ops :
+  model (CHistV (map (fun _ => 1) (model_obs ops)) ops) = model (CHist ops).
+Proof. unfold model. cbv zeta. f_equal. apply (@project_ones coll (model_obs ops)). Qed.
+
+(** (disj #{:k1} :k2 :k1) = #{} -- an absent element first; (dissoc {:k1 1} :k2 :k1) = {};
+    (assoc [] 0 :k1 1 :k2) = [:k1 :k2]; (assoc! (transient [7]) 0 :k1 5 :k2) raises and has set slot 0 *)
+Example variadic_values :
+  model (CHistV [1; 2; 1; 2; 1; 2; 1; 1; 2; 1]
+    [ONew KSet [k_ 1]; ODisj 0 (k_ 2); ODisj 1 (k_ 1);
+     ONewMap [(k_ 1, i_ 1)]; ODissoc 3 (k_ 2); ODissoc 4 (k_ 1);
+     ONew KVec []; OAssoc 6 (i_ 0) (k_ 1); OAssoc 7 (i_ 1) (k_ 2);
+     ONew KVec [i_ 7]; OTransient 9; OAssocT 10 (i_ 0) (k_ 1); OAssocT 11 (i_ 5) (k_ 2); OGet 10 (i_ 0) None]) =
+  OOut [RColl (CSet [k_ 1]) None; RColl (CSet []) None; RColl (CMap [(k_ 1, i_ 1)]) None; RColl (CMap []) None;
+        RColl (CVec []) None; RColl (CVec [k_ 1; k_ 2]) None; RColl (CVec [i_ 7]) None; RTrans 0;
+        RErr EIndex; RVal (k_ 1)] true [CVec [k_ 1]].
+Proof. vm_compute. reflexivity. Qed.
